@@ -43,7 +43,7 @@ def streams(rng, tier, seed):
     # "in a keyed map an error in one key's child is reported under that key only": the map_ harness of C10 with
     # children that throw (several keys failing in one cycle, failures next to removals, recovery)
     nm = 80 if tier == "quick" else 2000
-    mcases = [mp.gen_case(rng, 700000 + i, tier, rng.choice(["neg", "neg", "negecho"])) for i in range(nm)]
+    mcases = [mp.gen_case(rng, 700000 + i, tier, rng.choice(["neg", "neg", "negecho", "eguard", "eguard"])) for i in range(nm)]
     return [ec.engine_stream("engine-capture", progs),
             Stream("map-keyed-errors", [os.path.join(BUILD, "hgv_map")], model_cmd("C10"), mcases, timeout=3000)]
 
